@@ -149,6 +149,12 @@ def plan_c08(tier, seed, index):
                 timeout=2400, mem_gb=8, functions=CRC_FNS, core=False))
     P.append(ob("c10_open::c10_classify_40", "a file without checksum (version byte altered to 1 or 2) is never certified: verify() = ChecksumMissing on everything that opens as version 1-2",
                 timeout=2400, mem_gb=12, functions=["fst::raw::Fst::new", "fst::raw::Fst::verify"], bounds="all byte strings <= 40 bytes", core=False))
+    for n in (36, 40):
+        P.append(ob("c08_file::c08_verify_iff_trailer_%d" % n, "on arbitrary %d-byte version-3 files that open: verify() is Ok exactly when the trailer equals the crate's masked checksum of the preceding bytes (no other field can switch the check off)" % n,
+                    timeout=1800, mem_gb=12, functions=["fst::raw::Fst::new", "fst::raw::Fst::verify"] + CRC_FNS, bounds="all %d-byte strings with a version-3 header" % n, core=False))
+    P.append(ob("c07_sink::c07_step_len2_i1", "the checksum the builder will emit equals the checksum of the bytes the sink accepted, for every write schedule of a 2-byte write_all (independence of chunking)",
+                timeout=2400, mem_gb=12, unwindset=[["crc32c_slice16", 0, 2]], functions=["fst::raw::counting_writer::CountingWriter::write"] + CRC_FNS,
+                bounds="buffer length 2, <=1 Interrupted, every acceptance schedule", core=False))
     P.append(twin("c08_crc::c08_twin_must_fail", "vacuity twin", timeout=600, mem_gb=8))
     if tier == "thorough":
         P.append(ob("c08_file::c08_builder_trailer_empty", "real builder, empty FST, real CRC: trailer == masked reference CRC of the rest; verifies",
